@@ -809,7 +809,9 @@ func adj(inTime time.Time, cv *v1proto.ColumnValue, outTime time.Time) *v1proto.
 	if inTime.Equal(outTime) {
 		return cv
 	}
-	out := proto.Clone(cv).(*v1proto.ColumnValue)
+	// the value itself is immutable and can be shared; proto.Clone would
+	// also turn a REAL -0.0 into +0.0 (it skips "zero" scalars)
+	out := &v1proto.ColumnValue{Value: cv.Value}
 	out.UpdateOffset = durationpb.New(UpdateTime(inTime, cv).Sub(outTime))
 	return out
 }
